@@ -348,7 +348,7 @@ Section Bus.
 
   (* where the current micro-program comes from *)
   Definition from_tables (l : list uop) : Prop :=
-    l = [] \/ (exists op, op < 256 /\ l = nth (N.to_nat op) (t_normal T) []) \/
+    l = [] \/ (exists op, op < 256 /\ op <> 203 /\ l = nth (N.to_nat op) (t_normal T) []) \/
     (exists op, op < 256 /\ l = nth (N.to_nat op) (t_prefix T) []) \/
     l = t_vshort T \/ l = t_short T \/ l = t_long T.
 
@@ -395,7 +395,7 @@ Section Bus.
            Cpu.stopped Cpu.eip Cpu.u8a Cpu.u8b Cpu.m8a Cpu.m8b Cpu.cur Cpu.cyc Cpu.early Cpu.mooneye Cpu.fault Cpu.trace];
         repeat match goal with |- _ /\ _ => split end; try assumption; try reflexivity; try lia; try apply add16_lt;
         try discriminate; try (intros _; reflexivity);
-        (right; left; exists op; split; [exact Hop|reflexivity]).
+        (right; left; exists op; split; [exact Hop|split; [apply N.eqb_neq; exact Ecb|reflexivity]]).
   Qed.
 
   Lemma check_interrupts_cases s b :
